@@ -4,6 +4,8 @@ import Splipy.Lemmas.C13Spline
 import Splipy.Lemmas.C13Real
 import Splipy.Lemmas.C13Eval
 import Splipy.Lemmas.C13Lift
+import Splipy.Lemmas.C13Three
+import Splipy.Lemmas.C13Factory
 
 /-!
 # Property C13 — primitive factories produce the exact shapes they name, placed as requested
@@ -272,7 +274,7 @@ theorem C13_ellipse (X Y W r1 r2 : K) (h : X ^ 2 + Y ^ 2 = W ^ 2) (hW : W ≠ 0)
 
 /-- **Placement.**  Let `(ct, st) = (cos θ, sin θ)`, `(cp, sp) = (cos φ, sin φ)` obey the relations
 implied by `θ = atan2(n_y, n_x)`, `φ = atan2(ρ, n_z)` with `ρ² = n_x² + n_y²`, `N² = ρ² + n_z²`,
-`N ≠ 0` (for `ρ = 0`, i.e. `n ∥ ±e_z`, `θ` is *any* angle — whatever `atan2(±0, ±0)` returns).
+`N > 0` (for `ρ = 0`, i.e. `n ∥ ±e_z`, `θ` is *any* angle — whatever `atan2(±0, ±0)` returns).
 Then the rotation `R_z(θ)·R_y(φ)` applied by `flip_and_move_plane_geometry`
 1. maps `e_z` to `n/‖n‖`;
 2. preserves Euclidean norms and maps the plane `z = 0` into the plane orthogonal to `n`;
@@ -280,21 +282,24 @@ Then the rotation `R_z(θ)·R_y(φ)` applied by `flip_and_move_plane_geometry`
    `xaxis/‖xaxis‖` whenever `xaxis ⊥ n`, `xaxis ≠ 0` (`lam` is the supplied norm
    of the back-rotated x-axis, and equals `‖xaxis‖`). -/
 theorem C13_placement (nx ny nz ρ N ct st cp sp : K)
-    (hρ : ρ ^ 2 = nx ^ 2 + ny ^ 2) (hNN : N ^ 2 = ρ ^ 2 + nz ^ 2) (hN : N ≠ 0)
+    (hρ : ρ ^ 2 = nx ^ 2 + ny ^ 2) (hNN : N ^ 2 = ρ ^ 2 + nz ^ 2) (hNpos : 0 < N)
     (hθ : ρ ≠ 0 → ct * ρ = nx ∧ st * ρ = ny) (hθ1 : ct ^ 2 + st ^ 2 = 1)
     (hcp : cp * N = nz) (hsp : sp * N = ρ) :
     rotZPt ct st (rotYPt cp sp [0, 0, 1]) = [nx / N, ny / N, nz / N] ∧
     (∀ x y z : K, ∃ x' y' z' : K, rotZPt ct st (rotYPt cp sp [x, y, z]) = [x', y', z'] ∧
         x' ^ 2 + y' ^ 2 + z' ^ 2 = x ^ 2 + y ^ 2 + z ^ 2 ∧
         x' * nx + y' * ny + z' * nz = z * N) ∧
-    (∀ x y z lam : K, x * nx + y * ny + z * nz = 0 → lam ≠ 0 →
+    (∀ x y z lam : K, x * nx + y * ny + z * nz = 0 → 0 < lam →
         lam ^ 2 = ((localXVec [x, y, z] ⟨ct, st, cp, sp⟩).getD 0 0) ^ 2
                 + ((localXVec [x, y, z] ⟨ct, st, cp, sp⟩).getD 1 0) ^ 2 →
         rotZPt ct st (rotYPt cp sp
             (rotZPt (rotateLocalXAxis [x, y, z] ⟨ct, st, cp, sp⟩ lam).1
                     (rotateLocalXAxis [x, y, z] ⟨ct, st, cp, sp⟩ lam).2 [1, 0, 0]))
           = [x / lam, y / lam, z / lam] ∧
-        lam ^ 2 = x ^ 2 + y ^ 2 + z ^ 2) := by
+        lam ^ 2 = x ^ 2 + y ^ 2 + z ^ 2 ∧
+        (rotateLocalXAxis [x, y, z] ⟨ct, st, cp, sp⟩ lam).1 ^ 2
+          + (rotateLocalXAxis [x, y, z] ⟨ct, st, cp, sp⟩ lam).2 ^ 2 = 1) := by
+  have hN : N ≠ 0 := ne_of_gt hNpos
   have hez := flip_ez nx ny nz ρ N ct st cp sp hρ hN hθ hcp hsp
   have hp1 : cp ^ 2 + sp ^ 2 = 1 := by
     have : (cp ^ 2 + sp ^ 2) * N ^ 2 = N ^ 2 := by
@@ -316,7 +321,8 @@ theorem C13_placement (nx ny nz ρ N ct st cp sp : K)
     refine ⟨_, _, _, by simp only [rotYPt_cons, rotZPt_cons], rot_norm x y z ct st cp sp hθ1 hp1, ?_⟩
     rw [← hnx, ← hny, ← hnz]
     linear_combination (N * sp * (x * cp + z * sp)) * hθ1 + (N * z) * hp1
-  · intro x y z lam horth hlam hl2
+  · intro x y z lam horth hlampos hl2
+    have hlam : lam ≠ 0 := ne_of_gt hlampos
     have hl := localX_z x y z nx ny nz N ct st cp sp hnx hny hnz hN horth
     have hback := flip_localX x y z ct st cp sp hθ1 hp1
     have hlv : localXVec [x, y, z] ⟨ct, st, cp, sp⟩
@@ -333,7 +339,6 @@ theorem C13_placement (nx ny nz ρ N ct st cp sp : K)
       have := rot_norm l0 l1 0 ct st cp sp hθ1 hp1
       rw [bx, by', bz] at this
       rw [hl2]; linear_combination -this
-    refine ⟨?_, hnorm⟩
     have hne : ¬ (l0 = 0 ∧ l1 = 0) := by
       rintro ⟨a, b⟩
       rw [a, b] at hl2
@@ -342,19 +347,23 @@ theorem C13_placement (nx ny nz ρ N ct st cp sp : K)
       simp only [rotateLocalXAxis, hlv]
       rw [if_neg hne]
     rw [hrl]
-    simp only [rotYPt_cons, rotZPt_cons, List.cons.injEq, and_true]
-    refine ⟨?_, ?_, ?_⟩
-    · rw [← bx]; field_simp; ring
-    · rw [← by']; field_simp; ring
-    · rw [← bz]; field_simp; ring
+    refine ⟨?_, hnorm, ?_⟩
+    · simp only [rotYPt_cons, rotZPt_cons, List.cons.injEq, and_true]
+      refine ⟨?_, ?_, ?_⟩
+      · rw [← bx]; field_simp; ring
+      · rw [← by']; field_simp; ring
+      · rw [← bz]; field_simp; ring
+    · simp only
+      field_simp
+      linear_combination -hl2
 
 /-- the hypotheses of `C13_placement` are satisfiable: `n = (3, 4, 12)`, `ρ = 5`, `N = 13`, and the
 degenerate `n = (0, 0, −2)` with an arbitrary `θ` (here `θ = π`). -/
-example : ∃ nx ny nz ρ N ct st cp sp : ℚ, ρ ^ 2 = nx ^ 2 + ny ^ 2 ∧ N ^ 2 = ρ ^ 2 + nz ^ 2 ∧ N ≠ 0 ∧
+example : ∃ nx ny nz ρ N ct st cp sp : ℚ, ρ ^ 2 = nx ^ 2 + ny ^ 2 ∧ N ^ 2 = ρ ^ 2 + nz ^ 2 ∧ 0 < N ∧
     (ρ ≠ 0 → ct * ρ = nx ∧ st * ρ = ny) ∧ ct ^ 2 + st ^ 2 = 1 ∧ cp * N = nz ∧ sp * N = ρ :=
   ⟨3, 4, 12, 5, 13, 3 / 5, 4 / 5, 12 / 13, 5 / 13, by norm_num⟩
 
-example : ∃ nx ny nz ρ N ct st cp sp : ℚ, ρ ^ 2 = nx ^ 2 + ny ^ 2 ∧ N ^ 2 = ρ ^ 2 + nz ^ 2 ∧ N ≠ 0 ∧
+example : ∃ nx ny nz ρ N ct st cp sp : ℚ, ρ ^ 2 = nx ^ 2 + ny ^ 2 ∧ N ^ 2 = ρ ^ 2 + nz ^ 2 ∧ 0 < N ∧
     (ρ ≠ 0 → ct * ρ = nx ∧ st * ρ = ny) ∧ ct ^ 2 + st ^ 2 = 1 ∧ cp * N = nz ∧ sp * N = ρ :=
   ⟨0, 0, -2, 0, 2, -1, 0, -1, 0, by norm_num⟩
 
@@ -415,7 +424,7 @@ control point of a planar rational object (`C13_model_nets`, part 3).  Under the
    `r(cos t, sin t)`, goes to `c + r(cos t·x̂ + sin t·(n̂×x̂))` — increasing angle is counter-clockwise
    about the requested normal. -/
 theorem C13_placed_points (nx ny nz ρ N ct st cp sp ca sa c1 c2 c3 : K)
-    (hρ : ρ ^ 2 = nx ^ 2 + ny ^ 2) (hNN : N ^ 2 = ρ ^ 2 + nz ^ 2) (hN : N ≠ 0)
+    (hρ : ρ ^ 2 = nx ^ 2 + ny ^ 2) (hNN : N ^ 2 = ρ ^ 2 + nz ^ 2) (hNpos : 0 < N)
     (hθ : ρ ≠ 0 → ct * ρ = nx ∧ st * ρ = ny) (hθ1 : ct ^ 2 + st ^ 2 = 1)
     (hcp : cp * N = nz) (hsp : sp * N = ρ) (ha : ca ^ 2 + sa ^ 2 = 1) :
     (∀ X Y W : K, ∃ x y z : K,
@@ -432,13 +441,13 @@ theorem C13_placed_points (nx ny nz ρ N ct st cp sp ca sa c1 c2 c3 : K)
         placePt ca sa ct st cp sp [c1, c2, c3] [X, Y, W] = [x, y, z, W] →
         (x / W - c1) ^ 2 + (y / W - c2) ^ 2 + (z / W - c3) ^ 2 = r ^ 2 ∧
         (x / W - c1) * nx + (y / W - c2) * ny + (z / W - c3) * nz = 0) ∧
-    (∀ r x y z lam : K, x * nx + y * ny + z * nz = 0 → lam ≠ 0 →
+    (∀ r x y z lam : K, x * nx + y * ny + z * nz = 0 → 0 < lam →
         lam ^ 2 = ((localXVec [x, y, z] ⟨ct, st, cp, sp⟩).getD 0 0) ^ 2
                 + ((localXVec [x, y, z] ⟨ct, st, cp, sp⟩).getD 1 0) ^ 2 →
         placePt (rotateLocalXAxis [x, y, z] ⟨ct, st, cp, sp⟩ lam).1
                 (rotateLocalXAxis [x, y, z] ⟨ct, st, cp, sp⟩ lam).2 ct st cp sp [c1, c2, c3] [r, 0, 1]
           = [c1 + r * (x / lam), c2 + r * (y / lam), c3 + r * (z / lam), 1]) ∧
-    (∀ x y z lam : K, x * nx + y * ny + z * nz = 0 → lam ≠ 0 →
+    (∀ x y z lam : K, x * nx + y * ny + z * nz = 0 → 0 < lam →
         lam ^ 2 = ((localXVec [x, y, z] ⟨ct, st, cp, sp⟩).getD 0 0) ^ 2
                 + ((localXVec [x, y, z] ⟨ct, st, cp, sp⟩).getD 1 0) ^ 2 →
         rotZPt ct st (rotYPt cp sp
@@ -446,7 +455,8 @@ theorem C13_placed_points (nx ny nz ρ N ct st cp sp ca sa c1 c2 c3 : K)
                     (rotateLocalXAxis [x, y, z] ⟨ct, st, cp, sp⟩ lam).2 [0, 1, 0]))
           = [(ny / N) * (z / lam) - (nz / N) * (y / lam), (nz / N) * (x / lam) - (nx / N) * (z / lam),
              (nx / N) * (y / lam) - (ny / N) * (x / lam)]) := by
-  obtain ⟨hez, hrot, hx⟩ := C13_placement nx ny nz ρ N ct st cp sp hρ hNN hN hθ hθ1 hcp hsp
+  have hN : N ≠ 0 := ne_of_gt hNpos
+  obtain ⟨hez, hrot, hx⟩ := C13_placement nx ny nz ρ N ct st cp sp hρ hNN hNpos hθ hθ1 hcp hsp
   have hmain : ∀ X Y W : K, ∃ x y z : K,
       placePt ca sa ct st cp sp [c1, c2, c3] [X, Y, W] = [x, y, z, W] ∧
       (x - c1 * W) ^ 2 + (y - c2 * W) ^ 2 + (z - c3 * W) ^ 2 = X ^ 2 + Y ^ 2 ∧
@@ -485,7 +495,7 @@ theorem C13_placed_points (nx ny nz ρ N ct st cp sp ca sa c1 c2 c3 : K)
         field_simp
       rw [this, hp]; simp
   · intro r x y z lam horth hlam hl2
-    obtain ⟨he, _⟩ := hx x y z lam horth hlam hl2
+    obtain ⟨he, _, _⟩ := hx x y z lam horth hlam hl2
     generalize (rotateLocalXAxis [x, y, z] ⟨ct, st, cp, sp⟩ lam).1 = a' at he ⊢
     generalize (rotateLocalXAxis [x, y, z] ⟨ct, st, cp, sp⟩ lam).2 = b' at he ⊢
     simp only [rotYPt_cons, rotZPt_cons, List.cons.injEq, and_true] at he
@@ -493,7 +503,7 @@ theorem C13_placed_points (nx ny nz ρ N ct st cp sp ca sa c1 c2 c3 : K)
     simp [placePt, setDimPt, translatePt, weightOf]
     refine ⟨by rw [← e1]; ring, by rw [← e2]; ring, by rw [← e3]; ring⟩
   · intro x y z lam horth hlam hl2
-    obtain ⟨he, hnorm⟩ := hx x y z lam horth hlam hl2
+    obtain ⟨he, hnorm, _⟩ := hx x y z lam horth hlam hl2
     have hp1 : cp ^ 2 + sp ^ 2 = 1 := by
       have : (cp ^ 2 + sp ^ 2) * N ^ 2 = N ^ 2 := by
         linear_combination (cp * N + nz) * hcp + (sp * N + ρ) * hsp - hNN
@@ -659,7 +669,9 @@ theorem C13_revolved_shapes (X Z H A B W r R : K) (harc : A ^ 2 + B ^ 2 = W ^ 2)
 
 /-! ## three-point arc -/
 
-/-- **Three-point arc.**  `circle_segment_from_three_points` is
+/-- **Three-point arc: geometry.**  (The branch decision of the code is tied to the sign hypothesis
+of part 2 in `C13_three_points_branch_partial` / `C13_three_points_end`.)
+`circle_segment_from_three_points` is
 `circle_segment(θ, r, centre, w2, x0 − centre)` with the travel normal `w2 = (x0−x2)×(x1−x2)` (part 4).
 1. The centre returned by the linear solve of the model (`threePointCenter`, the system the code
    hands to `np.linalg.solve`) is equidistant from the three points and lies in their plane: it is
@@ -681,7 +693,7 @@ so that the curve passes through `x1` — is `C13_three_points_through_x1` (expl
 *Unfixed shape:* before the repair the arc was placed about `v0 × v1`; by part 2 applied to `x1`,
 `(v0×v1)·n = s1·ρ²·L`, so that normal is anti-parallel to the travel normal exactly when `s1 < 0`
 (the arc from `x0` to `x1` exceeds a half turn) and the arc then ended at `x2` mirrored in `v0`. -/
-theorem C13_three_points :
+theorem C13_three_points_geometry :
     (∀ a1 a2 a3 b1 b2 b3 c1 c2 c3 x y z : K,
         threePointCenter [a1, a2, a3] [b1, b2, b3] [c1, c2, c3] = .ok [x, y, z] →
         (a1 - x) ^ 2 + (a2 - y) ^ 2 + (a3 - z) ^ 2 = (b1 - x) ^ 2 + (b2 - y) ^ 2 + (b3 - z) ^ 2 ∧
@@ -729,7 +741,8 @@ theorem C13_three_points :
       exact absurd hLpos (not_lt.mpr this)
     exact between_of_orient c s c1 s1 hcs hcs1 hpos
   · intro k tol x0 x1 x2 radius thS arcS thL arcL aW lamW d hd
-    simp only [threePoints, hd, bind, Except.bind, pure, Except.pure]
+    have hd' : threePointDataWith false tol x0 x1 x2 = .ok d := hd
+    simp only [threePoints, threePointsWith, hd', bind, Except.bind, pure, Except.pure]
     by_cases hk : d.keep <;> simp [hk, Except.map]
   · intro a1 a2 a3 b1 b2 b3 c1 c2 c3 x y z h
     simp only [threePointCenter, sub3, cross3, List.zipWith, List.map, dot3, List.sum_cons, List.sum_nil] at h
@@ -795,7 +808,7 @@ example : ∃ a1 a2 a3 b1 b2 b3 n1 n2 n3 ρ2 L c s : ℚ,
 /-- **The three-point arc passes through `x1`.**  Let `θ ∈ (0, 2π)` be the angle of the arc, built
 from `n ≥ 1` spans of half-angle `dt = θ/(2n) < π` with `(cd, sd) = (cos dt, sin dt)` (the values the
 factory computes), and let `(c1, s1)` be a unit vector lying strictly between the angles `0` and
-`θ` in the sense of `C13_three_points`, part 3 (the direction of `x1 − centre` in the frame
+`θ` in the sense of `C13_three_points_geometry`, part 3 (the direction of `x1 − centre` in the frame
 `x̂ = (x0 − centre)/r`, `ŷ = n̂ × x̂`).  Then there are a span `j < n` and a local parameter
 `u ∈ [0, 1]` at which the homogeneous span point of the (unplaced) arc is `r·(c1, s1)·W(u)`:
 the Cartesian point is `r·(c1, s1)`.  By `C13_placed_points` (linearity, parts 2, 4, 5) the placed
@@ -941,7 +954,7 @@ placement data obeying the relations of `C13_placement`:
    placed point satisfies the ellipse equation in the frame `(e_x', e_y')` and lies in the plane. -/
 theorem C13_eval_placed_curve (net : List (Pt K)) (n : ℕ) (β : ℕ → K) (h3 : Is3 net n)
     (nx ny nz ρ N ct st cp sp ca sa c1 c2 c3 : K)
-    (hρ : ρ ^ 2 = nx ^ 2 + ny ^ 2) (hNN : N ^ 2 = ρ ^ 2 + nz ^ 2) (hN : N ≠ 0)
+    (hρ : ρ ^ 2 = nx ^ 2 + ny ^ 2) (hNN : N ^ 2 = ρ ^ 2 + nz ^ 2) (hNpos : 0 < N)
     (hθ : ρ ≠ 0 → ct * ρ = nx ∧ st * ρ = ny) (hθ1 : ct ^ 2 + st ^ 2 = 1)
     (hcp : cp * N = nz) (hsp : sp * N = ρ) (ha : ca ^ 2 + sa ^ 2 = 1) :
     let X := wS n β (comp net 0)
@@ -968,6 +981,7 @@ theorem C13_eval_placed_curve (net : List (Pt K)) (n : ℕ) (β : ℕ → K) (h3
       (((x / w - c1) * ex.1 + (y / w - c2) * ex.2.1 + (z / w - c3) * ex.2.2) / r1) ^ 2
       + (((x / w - c1) * ey.1 + (y / w - c2) * ey.2.1 + (z / w - c3) * ey.2.2) / r2) ^ 2 = 1 ∧
       (x / w - c1) * nx + (y / w - c2) * ny + (z / w - c3) * nz = 0) := by
+  have hN : N ≠ 0 := ne_of_gt hNpos
   intro X Y W net' x y z w ex ey
   have hpl := wS_placePt net n β h3 ca sa ct st cp sp c1 c2 c3
   have hp1 : cp ^ 2 + sp ^ 2 = 1 := by
@@ -988,7 +1002,7 @@ theorem C13_eval_placed_curve (net : List (Pt K)) (n : ℕ) (β : ℕ → K) (h3
   have e2 : z = X * ex.2.2 + Y * ey.2.2 + c3 * W := e2'
   have e3 : w = W := e3'
   -- n in terms of the angles
-  obtain ⟨hez, _, _⟩ := C13_placement nx ny nz ρ N ct st cp sp hρ hNN hN hθ hθ1 hcp hsp
+  obtain ⟨hez, _, _⟩ := C13_placement nx ny nz ρ N ct st cp sp hρ hNN hNpos hθ hθ1 hcp hsp
   simp only [rotYPt_cons, rotZPt_cons, List.cons.injEq, and_true] at hez
   obtain ⟨z1, z2, z3⟩ := hez
   have hnx : nx = N * (sp * ct) := by
@@ -1301,7 +1315,8 @@ converted to the tensor object, `SplineObject.evaluate` at admissible parameters
 the circle of radius `r` about the origin. -/
 theorem C13_eval_arc_evaluate [FloorRing K] (r cd sd theta : K) (n : ℕ) (hn : 0 < n) (hθ : 0 < theta)
     (hd : cd ^ 2 + sd ^ 2 = 1) (hcd : 0 < cd) {tol : K} (htol : 0 < tol) {us : List K}
-    (hus : ∀ u ∈ us, ({ order := 3, knots := (arcKnots theta n).toArray, periodic := -1 } : Basis K).Admissible tol u) :
+    (hus : ∀ u ∈ us, ({ order := 3, knots := (arcKnots theta n).toArray, periodic := -1 } : Basis K).Admissible tol u)
+    (hne : us ≠ []) :
     ∃ res, (FileIO.ofFac (arcCurve r cd sd theta n)).evaluate tol [us] true = .ok res ∧
       res.shape = [us.length, 2] ∧
       ∀ i, i < us.length → res.get (i * 2 + 0) ^ 2 + res.get (i * 2 + 1) ^ 2 = r ^ 2 := by
@@ -1332,7 +1347,7 @@ theorem C13_eval_arc_evaluate [FloorRing K] (r cd sd theta : K) (n : ℕ) (hn : 
       rw [hnf] at hj
       rw [hget j 2 hj (by omega), (netComp_arc r cd sd n j hj).2.2]
       unfold arcW; split <;> [exact hcd; exact one_pos])
-    htol hus
+    htol hus (fun _ => hne)
   refine ⟨res, h1, h2, ?_⟩
   intro i hi
   obtain ⟨hpos, hq⟩ := h4 i hi
@@ -1367,4 +1382,435 @@ theorem C13_eval_arc_evaluate [FloorRing K] (r cd sd theta : K) (n : ℕ) (hn : 
   obtain ⟨hW, _, hcirc⟩ := C13_eval_arc r cd sd theta n hn hθ hd hcd (effSide b u true) u hmem
   rw [hq 0 (by omega), hq 1 (by omega), hsum 0 (by omega), hsum 1 (by omega), hsum 2 (by omega)]
   exact hcirc
+
+/-- **Three-point arc: the branch decision of the code (partial for the code as it is).**
+`threePointDataWith useDot tol x0 x1 x2` is what `circle_segment_from_three_points` computes before
+calling `circle_segment`; `useDot = false` is the code with the component-wise sign comparison
+`all(sign(i)==sign(j) or abs(i-j) < controlpoint_absolute_tolerance)` (`sameSigns`), `useDot = true`
+the scale-independent test `dot(w2, normal) >= 0` (`keepDot`, the proposed repair).  If it returns
+`d`: the centre is the circumcentre (`v0, v2 ⟂ w2`, `|v0| = |v2|`), and with
+`trip = (v0 × v2)·w2` (positive exactly when the short arc from `x0` to `x2` is the one through `x1`)
+* `useDot = true`:  `d.keep ↔ 0 ≤ trip`, unconditionally;
+* `useDot = false`: `d.keep ↔ 0 < trip` **provided some component of the travel normal `w2` has
+  magnitude at least `tol`** (`tol = 1e-8`: twice the triangle area for planar input).
+*Missing for the code as it is:* without the magnitude guard the statement is false — for tiny
+configurations (`|w2_i − normal_i| < tol` for every component) `sameSigns` is `true` whatever the
+orientation and the arc ends away from `x2` (defect class
+`three-point-arc-small-radius-absolute-tolerance`).  With `keepDot` no guard is needed.
+By `C13_three_points_end` either form of the decision yields the sign hypothesis of
+`C13_three_points_geometry`, part 2: the arc ends at `x2`. -/
+theorem C13_three_points_branch_partial (useDot : Bool) (tol a1 a2 a3 b1 b2 b3 c1 c2 c3 : K) (htol : 0 < tol)
+    (d : ThreePt K)
+    (hd : threePointDataWith useDot tol [a1, a2, a3] [b1, b2, b3] [c1, c2, c3] = .ok d) :
+    ∃ x y z w1 w2 w3 : K,
+      d.center = [x, y, z] ∧ d.v0 = [a1 - x, a2 - y, a3 - z] ∧ d.v2 = [c1 - x, c2 - y, c3 - z] ∧
+      d.w2 = [w1, w2, w3] ∧
+      -- circumcentre; `v0, v2 ⟂ w2`
+      (a1 - x) ^ 2 + (a2 - y) ^ 2 + (a3 - z) ^ 2 = (c1 - x) ^ 2 + (c2 - y) ^ 2 + (c3 - z) ^ 2 ∧
+      (a1 - x) * w1 + (a2 - y) * w2 + (a3 - z) * w3 = 0 ∧
+      (c1 - x) * w1 + (c2 - y) * w2 + (c3 - z) * w3 = 0 ∧
+      -- the branch decision
+      (useDot = true → (d.keep = true ↔ 0 ≤ dot3 (cross3 d.v0 d.v2) d.w2)) ∧
+      (useDot = false → (tol ≤ |w1| ∨ tol ≤ |w2| ∨ tol ≤ |w3|) →
+        (d.keep = true ↔ 0 < dot3 (cross3 d.v0 d.v2) d.w2)) := by
+  obtain ⟨x, y, z, hc, e1, e2, e3, e4, e5⟩ :=
+    threePointDataWith_ok useDot tol a1 a2 a3 b1 b2 b3 c1 c2 c3 d hd
+  obtain ⟨hcen, _, _, _⟩ := C13_three_points_geometry (K := K)
+  obtain ⟨_, q2, q3⟩ := hcen a1 a2 a3 b1 b2 b3 c1 c2 c3 x y z hc
+  simp only [cross3] at e4
+  simp only [sub3, cross3, List.zipWith, dot3, List.sum_cons, List.sum_nil] at q3
+  refine ⟨x, y, z, (a2 - c2) * (b3 - c3) - (a3 - c3) * (b2 - c2), (a3 - c3) * (b1 - c1) - (a1 - c1) * (b3 - c3),
+    (a1 - c1) * (b2 - c2) - (a2 - c2) * (b1 - c1), e1, e2, e3, e4, q2, ?_, ?_, ?_, ?_⟩
+  · linear_combination -q3
+  · linear_combination -q3
+  · intro hu
+    rw [e5, hu]
+    simp only [if_true]
+    rw [keepDot_iff, e2, e3, e4]
+    simp [dot3, cross3]
+    constructor <;> intro h <;> linarith
+  · intro hu hg
+    rw [e5, hu]
+    simp only [Bool.false_eq_true, if_false]
+    rw [e2, e3, e4]
+    apply sameSigns_cross_iff tol _ _ _ _ _ _ _ _ _ htol _ _ hg
+    · linear_combination -q3
+    · linear_combination -q3
+
+
+/-- end point of the arc with the sign of `sin θ` chosen by the branch flag. -/
+theorem C13_three_points_end (a1 a2 a3 b1 b2 b3 n1 n2 n3 ρ2 L c σ : K) (keep : Bool)
+    (h0 : a1 * n1 + a2 * n2 + a3 * n3 = 0) (h2 : b1 * n1 + b2 * n2 + b3 * n3 = 0)
+    (ha : ρ2 = a1 ^ 2 + a2 ^ 2 + a3 ^ 2) (hb : ρ2 = b1 ^ 2 + b2 ^ 2 + b3 ^ 2) (hρ : 0 < ρ2)
+    (hL : L ^ 2 = n1 ^ 2 + n2 ^ 2 + n3 ^ 2) (hLpos : 0 < L)
+    (hc : c * ρ2 = a1 * b1 + a2 * b2 + a3 * b3) (hσ0 : 0 ≤ σ) (hσ : σ ^ 2 = 1 - c ^ 2)
+    (hk1 : keep = true → 0 ≤ (a2 * b3 - a3 * b2) * n1 + (a3 * b1 - a1 * b3) * n2 + (a1 * b2 - a2 * b1) * n3)
+    (hk2 : keep = false → (a2 * b3 - a3 * b2) * n1 + (a3 * b1 - a1 * b3) * n2 + (a1 * b2 - a2 * b1) * n3 ≤ 0) :
+    let s := if keep then σ else -σ
+    c * a1 + s * ((n2 * a3 - n3 * a2) / L) = b1 ∧
+    c * a2 + s * ((n3 * a1 - n1 * a3) / L) = b2 ∧
+    c * a3 + s * ((n1 * a2 - n2 * a1) / L) = b3 := by
+  intro s
+  obtain ⟨_, hend, _, _⟩ := C13_three_points_geometry (K := K)
+  set trip := (a2 * b3 - a3 * b2) * n1 + (a3 * b1 - a1 * b3) * n2 + (a1 * b2 - a2 * b1) * n3 with htrip
+  have hs2 : s ^ 2 = 1 - c ^ 2 := by
+    simp only [s]; split <;> [exact hσ; (rw [neg_sq]; exact hσ)]
+  -- Lagrange: trip² = (σ ρ² L)²
+  have hsq : (σ * ρ2 * L) ^ 2 = trip ^ 2 := by
+    have lag := triple_sq a1 a2 a3 b1 b2 b3 n1 n2 n3 h0 h2
+    rw [← htrip] at lag
+    rw [lag, ← hL]
+    have cross_sq : (a2 * b3 - a3 * b2) ^ 2 + (a3 * b1 - a1 * b3) ^ 2 + (a1 * b2 - a2 * b1) ^ 2
+        = ρ2 * ρ2 - (c * ρ2) ^ 2 := by
+      rw [hc]; nth_rewrite 1 [ha]; rw [hb]; ring
+    rw [cross_sq]
+    linear_combination (ρ2 ^ 2 * L ^ 2) * hσ
+  have hpos : 0 < ρ2 * L := mul_pos hρ hLpos
+  have hsign : 0 ≤ s ↔ 0 ≤ trip := by
+    cases hk : keep
+    · have ht := hk2 hk
+      have hs : s = -σ := by simp [s, hk]
+      rw [hs]
+      constructor
+      · intro h
+        have hσz : σ = 0 := le_antisymm (by linarith) hσ0
+        rw [hσz] at hsq
+        have : trip ^ 2 = 0 := by rw [← hsq]; ring
+        have : trip = 0 := pow_eq_zero_iff (two_ne_zero) |>.mp this
+        linarith
+      · intro h
+        have htz : trip = 0 := le_antisymm ht h
+        rw [htz] at hsq
+        have h3 : σ * ρ2 * L = 0 := pow_eq_zero_iff (two_ne_zero) |>.mp (by rw [hsq]; ring)
+        have h4 : σ * (ρ2 * L) = 0 := by rw [← h3]; ring
+        have : σ = 0 := by
+          rcases mul_eq_zero.mp h4 with h5 | h5
+          · exact h5
+          · exact absurd h5 (ne_of_gt hpos)
+        rw [this]; simp
+    · have ht := hk1 hk
+      have hs : s = σ := by simp [s, hk]
+      rw [hs]
+      exact ⟨fun _ => ht, fun _ => hσ0⟩
+  exact hend a1 a2 a3 b1 b2 b3 n1 n2 n3 ρ2 L c s h0 h2 ha hb hρ hL hLpos hc hs2 hsign
+
+/-! ## the factory functions themselves: `Fac.<factory> … = .ok o` and every evaluated point of `o` -/
+
+/-- **`place` of a planar rational curve, at every parameter.** -/
+theorem C13_place_eval (k : Consts K) (o0 : Fac.Obj K) (hdim : o0.dim = 2) (hrat : o0.rational = true)
+    (hm : 0 < o0.cps.length) (h3 : Is3 o0.cps o0.cps.length)
+    (c1 c2 c3 nx ny nz x y z ρ N lam ct st cp sp : K)
+    (hn : allcloseEz [nx, ny, nz] = false) (hc : allcloseZero [c1, c2, c3] = false)
+    (hρ : ρ ^ 2 = nx ^ 2 + ny ^ 2) (hNN : N ^ 2 = ρ ^ 2 + nz ^ 2) (hNpos : 0 < N)
+    (hθ : ρ ≠ 0 → ct * ρ = nx ∧ st * ρ = ny) (hθ1 : ct ^ 2 + st ^ 2 = 1)
+    (hcp : cp * N = nz) (hsp : sp * N = ρ)
+    (horth : x * nx + y * ny + z * nz = 0) (hlam : 0 < lam)
+    (hl2 : lam ^ 2 = ((localXVec [x, y, z] ⟨ct, st, cp, sp⟩).getD 0 0) ^ 2
+                + ((localXVec [x, y, z] ⟨ct, st, cp, sp⟩).getD 1 0) ^ 2) :
+    ∃ o : Fac.Obj K,
+      place o0 [c1, c2, c3] [nx, ny, nz] [x, y, z] ⟨ct, st, cp, sp⟩ lam = .ok o ∧
+      o.bases = o0.bases ∧ o.rational = true ∧ o.dim = 3 ∧ o.cps.length = o0.cps.length ∧
+      ∀ (s : Side) (τ : ℕ → K) (q n : ℕ) (t : K),
+        let X := splineVal s τ q n (netComp o0.cps 0) t
+        let Y := splineVal s τ q n (netComp o0.cps 1) t
+        let W := splineVal s τ q n (netComp o0.cps 2) t
+        let xh := splineVal s τ q n (netComp o.cps 0) t
+        let yh := splineVal s τ q n (netComp o.cps 1) t
+        let zh := splineVal s τ q n (netComp o.cps 2) t
+        let wh := splineVal s τ q n (netComp o.cps 3) t
+        let ca := (rotateLocalXAxis [x, y, z] ⟨ct, st, cp, sp⟩ lam).1
+        let sa := (rotateLocalXAxis [x, y, z] ⟨ct, st, cp, sp⟩ lam).2
+        let ex : K × K × K := (ca * cp * ct - sa * st, ca * cp * st + sa * ct, -(ca * sp))
+        let ey : K × K × K := (-(sa * cp * ct) - ca * st, -(sa * cp * st) + ca * ct, sa * sp)
+        wh = W ∧
+        (∀ r : K, X ^ 2 + Y ^ 2 = r ^ 2 * W ^ 2 → W ≠ 0 →
+          (xh / wh - c1) ^ 2 + (yh / wh - c2) ^ 2 + (zh / wh - c3) ^ 2 = r ^ 2 ∧
+          (xh / wh - c1) * nx + (yh / wh - c2) * ny + (zh / wh - c3) * nz = 0) ∧
+        (∀ r1 r2 : K, (X / r1) ^ 2 + (Y / r2) ^ 2 = W ^ 2 → W ≠ 0 → r1 ≠ 0 → r2 ≠ 0 →
+          (((xh / wh - c1) * ex.1 + (yh / wh - c2) * ex.2.1 + (zh / wh - c3) * ex.2.2) / r1) ^ 2
+          + (((xh / wh - c1) * ey.1 + (yh / wh - c2) * ey.2.1 + (zh / wh - c3) * ey.2.2) / r2) ^ 2 = 1 ∧
+          (xh / wh - c1) * nx + (yh / wh - c2) * ny + (zh / wh - c3) * nz = 0) := by
+  obtain ⟨_, _, hplace⟩ := C13_model_nets k [c1, c2, c3] [nx, ny, nz] [x, y, z] ⟨ct, st, cp, sp⟩ lam
+  obtain ⟨_, _, hunit⟩ := (C13_placement nx ny nz ρ N ct st cp sp hρ hNN hNpos hθ hθ1 hcp hsp).2.2 x y z lam horth hlam hl2
+  have hpl := hplace o0 hdim hn hc rfl
+  refine ⟨{ o0 with dim := 3, cps := o0.cps.map (placePt (rotateLocalXAxis [x, y, z] ⟨ct, st, cp, sp⟩ lam).1
+      (rotateLocalXAxis [x, y, z] ⟨ct, st, cp, sp⟩ lam).2 ct st cp sp [c1, c2, c3]) },
+    by rw [hpl, hrat]; rfl, rfl, hrat, rfl, by simp, ?_⟩
+  intro s τ q n t X Y W xh yh zh wh ca sa ex ey
+  have hev := C13_eval_placed_curve o0.cps o0.cps.length (wrapW s τ q n o0.cps.length t) h3
+    nx ny nz ρ N ct st cp sp ca sa c1 c2 c3 hρ hNN hNpos hθ hθ1 hcp hsp hunit
+  simp only at hev
+  have hl : (o0.cps.map (placePt ca sa ct st cp sp [c1, c2, c3])).length = o0.cps.length := by simp
+  have e : ∀ c, splineVal s τ q n (netComp (o0.cps.map (placePt ca sa ct st cp sp [c1, c2, c3])) c) t
+      = wS o0.cps.length (wrapW s τ q n o0.cps.length t) (comp (o0.cps.map (placePt ca sa ct st cp sp [c1, c2, c3])) c) := by
+    intro c
+    have := splineVal_netComp_eq_wS s τ q n (o0.cps.map (placePt ca sa ct st cp sp [c1, c2, c3])) c t (by rw [hl]; exact hm)
+    rw [hl] at this; exact this
+  rw [← e 0, ← e 1, ← e 2, ← e 3, ← splineVal_netComp_eq_wS s τ q n o0.cps 0 t hm,
+    ← splineVal_netComp_eq_wS s τ q n o0.cps 1 t hm, ← splineVal_netComp_eq_wS s τ q n o0.cps 2 t hm] at hev
+  obtain ⟨hw, _, _, _, _, hcirc, hell⟩ := hev
+  exact ⟨hw, hcirc, hell⟩
+
+/-- **`circle(r, center, normal, type, xaxis)` — the function the driver runs — at every parameter**
+(both parametrisation types; partial).  Under the relations of `C13_placement` for the supplied
+`(cos, sin)` data and norm `lam`, `r > 0`, `π > 0`, `w² = 1/2` resp. `s2² = 2`: the model function
+returns an object `o` with the factory's periodic basis, rational, 3D, and for *every* parameter
+`t` of the domain (either side) the evaluated point `p(t) = (xh, yh, zh)/wh` of `o` (B-spline sum over
+`o`'s own control net and knot vector, weights wrapped) has `wh > 0`, `‖p − c‖² = r²`, `(p − c)·n = 0`.
+*Missing (hence `_partial`):* the branches of `flip_and_move_plane_geometry` that skip the rotation
+(`normal ≈ e_z`) or the translation (`center ≈ 0`, or a 2-component centre) — there the object stays
+2D / unrotated and the statement needs the corresponding simpler placement; the start point and
+orientation are stated for the nets (`C13_placed_points` parts 4–5), not re-derived from `o` here. -/
+theorem C13_factory_circle_p2C0_partial (k : Consts K) (r c1 c2 c3 nx ny nz x y z ρ N lam ct st cp sp : K)
+    (hpi : 0 < k.pi) (hw2 : k.w ^ 2 = 1 / 2) (hw0 : 0 < k.w) (hr : 0 < r)
+    (hn : allcloseEz [nx, ny, nz] = false) (hc : allcloseZero [c1, c2, c3] = false)
+    (hρ : ρ ^ 2 = nx ^ 2 + ny ^ 2) (hNN : N ^ 2 = ρ ^ 2 + nz ^ 2) (hNpos : 0 < N)
+    (hθ : ρ ≠ 0 → ct * ρ = nx ∧ st * ρ = ny) (hθ1 : ct ^ 2 + st ^ 2 = 1)
+    (hcp : cp * N = nz) (hsp : sp * N = ρ)
+    (horth : x * nx + y * ny + z * nz = 0) (hlam : 0 < lam)
+    (hl2 : lam ^ 2 = ((localXVec [x, y, z] ⟨ct, st, cp, sp⟩).getD 0 0) ^ 2
+                + ((localXVec [x, y, z] ⟨ct, st, cp, sp⟩).getD 1 0) ^ 2) :
+    ∃ o : Fac.Obj K,
+      circle k r [c1, c2, c3] [nx, ny, nz] "p2C0" [x, y, z] ⟨ct, st, cp, sp⟩ lam = .ok o ∧
+      o.bases = [{ order := 3, knots := (circleKnotsP2 k.pi).toArray, periodic := 0 }] ∧ o.rational = true ∧ o.dim = 3 ∧ o.cps.length = 8 ∧
+      ∀ (s : Side) (t : K), s.mem 0 (2 * k.pi) t →
+        let τ := ({ order := 3, knots := (circleKnotsP2 k.pi).toArray, periodic := 0 } : Basis K).kn
+        let xh := splineVal s τ 2 9 (netComp o.cps 0) t
+        let yh := splineVal s τ 2 9 (netComp o.cps 1) t
+        let zh := splineVal s τ 2 9 (netComp o.cps 2) t
+        let wh := splineVal s τ 2 9 (netComp o.cps 3) t
+        0 < wh ∧
+        (xh / wh - c1) ^ 2 + (yh / wh - c2) ^ 2 + (zh / wh - c3) ^ 2 = r ^ 2 ∧
+        (xh / wh - c1) * nx + (yh / wh - c2) * ny + (zh / wh - c3) * nz = 0 := by
+  have hmodel : circle k r [c1, c2, c3] [nx, ny, nz] "p2C0" [x, y, z] ⟨ct, st, cp, sp⟩ lam
+      = place ((curveOf { order := 3, knots := (circleKnotsP2 k.pi).toArray, periodic := 0 } (circleNetP2 k.w) true 2).scale [r]) [c1, c2, c3] [nx, ny, nz] [x, y, z] ⟨ct, st, cp, sp⟩ lam := by
+    simp [circle, unitCircle, not_le.mpr hr, bind, Except.bind, pure, Except.pure]
+  have h3 := is3_circleNetP2 k.w
+  have hlen : 0 < (circleNetP2 k.w).length := by simp [circleNetP2]
+  have hcps : ((curveOf { order := 3, knots := (circleKnotsP2 k.pi).toArray, periodic := 0 } (circleNetP2 k.w) true 2).scale [r]).cps = (circleNetP2 k.w).map (scalePt 2 (r :: r :: [r])) := by
+    simp [Fac.Obj.scale, Fac.Obj.mapPts, curveOf, Fac.Obj.padScale]
+  obtain ⟨o, ho, hb, hrat, hdim, hl, hev⟩ := C13_place_eval k ((curveOf { order := 3, knots := (circleKnotsP2 k.pi).toArray, periodic := 0 } (circleNetP2 k.w) true 2).scale [r]) rfl rfl
+    (by rw [hcps]; simpa using hlen)
+    (by rw [hcps]; simpa using (splineVal_scaled .right (fun _ => (0 : K)) 0 0 (circleNetP2 k.w) 0 r r [r] hlen h3).2.2.2)
+    c1 c2 c3 nx ny nz x y z ρ N lam ct st cp sp hn hc hρ hNN hNpos hθ hθ1 hcp hsp horth hlam hl2
+  refine ⟨o, by rw [hmodel, ho], hb, hrat, hdim, by rw [hl, hcps]; simp [circleNetP2], ?_⟩
+  intro s t ht τ xh yh zh wh
+  obtain ⟨hW, hcone, _⟩ := C13_eval_circle_p2C0 k.pi k.w hpi hw2 hw0 s t ht
+  obtain ⟨hw, hcirc, _⟩ := hev s τ 2 9 t
+  simp only [hcps] at hw hcirc
+  obtain ⟨sx, sy, sw, _⟩ := splineVal_scaled s τ 2 9 (circleNetP2 k.w) t r r [r] hlen h3
+  rw [sx, sy, sw] at hcirc
+  rw [sw] at hw
+  have hwpos : 0 < wh := by
+    have : wh = _ := hw
+    rw [this]; exact hW
+  obtain ⟨q1, q2⟩ := hcirc r (by linear_combination r ^ 2 * hcone) (ne_of_gt hW)
+  exact ⟨hwpos, q1, q2⟩
+
+/-- `circle(type='p4C1')`: see `C13_factory_circle_p2C0_partial`. -/
+theorem C13_factory_circle_p4C1_partial (k : Consts K) (r c1 c2 c3 nx ny nz x y z ρ N lam ct st cp sp : K)
+    (hpi : 0 < k.pi) (h2 : k.s2 ^ 2 = 2) (hs0 : 0 < k.s2) (hr : 0 < r)
+    (hn : allcloseEz [nx, ny, nz] = false) (hc : allcloseZero [c1, c2, c3] = false)
+    (hρ : ρ ^ 2 = nx ^ 2 + ny ^ 2) (hNN : N ^ 2 = ρ ^ 2 + nz ^ 2) (hNpos : 0 < N)
+    (hθ : ρ ≠ 0 → ct * ρ = nx ∧ st * ρ = ny) (hθ1 : ct ^ 2 + st ^ 2 = 1)
+    (hcp : cp * N = nz) (hsp : sp * N = ρ)
+    (horth : x * nx + y * ny + z * nz = 0) (hlam : 0 < lam)
+    (hl2 : lam ^ 2 = ((localXVec [x, y, z] ⟨ct, st, cp, sp⟩).getD 0 0) ^ 2
+                + ((localXVec [x, y, z] ⟨ct, st, cp, sp⟩).getD 1 0) ^ 2) :
+    ∃ o : Fac.Obj K,
+      circle k r [c1, c2, c3] [nx, ny, nz] "p4C1" [x, y, z] ⟨ct, st, cp, sp⟩ lam = .ok o ∧
+      o.bases = [{ order := 5, knots := (circleKnotsP4 k.pi).toArray, periodic := 1 }] ∧ o.rational = true ∧ o.dim = 3 ∧ o.cps.length = 12 ∧
+      ∀ (s : Side) (t : K), s.mem 0 (2 * k.pi) t →
+        let τ := ({ order := 5, knots := (circleKnotsP4 k.pi).toArray, periodic := 1 } : Basis K).kn
+        let xh := splineVal s τ 4 14 (netComp o.cps 0) t
+        let yh := splineVal s τ 4 14 (netComp o.cps 1) t
+        let zh := splineVal s τ 4 14 (netComp o.cps 2) t
+        let wh := splineVal s τ 4 14 (netComp o.cps 3) t
+        0 < wh ∧
+        (xh / wh - c1) ^ 2 + (yh / wh - c2) ^ 2 + (zh / wh - c3) ^ 2 = r ^ 2 ∧
+        (xh / wh - c1) * nx + (yh / wh - c2) * ny + (zh / wh - c3) * nz = 0 := by
+  have hmodel : circle k r [c1, c2, c3] [nx, ny, nz] "p4C1" [x, y, z] ⟨ct, st, cp, sp⟩ lam
+      = place ((curveOf { order := 5, knots := (circleKnotsP4 k.pi).toArray, periodic := 1 } (circleNetP4 k.s2) true 2).scale [r]) [c1, c2, c3] [nx, ny, nz] [x, y, z] ⟨ct, st, cp, sp⟩ lam := by
+    simp [circle, unitCircle, not_le.mpr hr, bind, Except.bind, pure, Except.pure]
+  have h3 := is3_circleNetP4 k.s2
+  have hlen : 0 < (circleNetP4 k.s2).length := by simp [circleNetP4]
+  have hcps : ((curveOf { order := 5, knots := (circleKnotsP4 k.pi).toArray, periodic := 1 } (circleNetP4 k.s2) true 2).scale [r]).cps = (circleNetP4 k.s2).map (scalePt 2 (r :: r :: [r])) := by
+    simp [Fac.Obj.scale, Fac.Obj.mapPts, curveOf, Fac.Obj.padScale]
+  obtain ⟨o, ho, hb, hrat, hdim, hl, hev⟩ := C13_place_eval k ((curveOf { order := 5, knots := (circleKnotsP4 k.pi).toArray, periodic := 1 } (circleNetP4 k.s2) true 2).scale [r]) rfl rfl
+    (by rw [hcps]; simpa using hlen)
+    (by rw [hcps]; simpa using (splineVal_scaled .right (fun _ => (0 : K)) 0 0 (circleNetP4 k.s2) 0 r r [r] hlen h3).2.2.2)
+    c1 c2 c3 nx ny nz x y z ρ N lam ct st cp sp hn hc hρ hNN hNpos hθ hθ1 hcp hsp horth hlam hl2
+  refine ⟨o, by rw [hmodel, ho], hb, hrat, hdim, by rw [hl, hcps]; simp [circleNetP4], ?_⟩
+  intro s t ht τ xh yh zh wh
+  obtain ⟨hW, hcone, _⟩ := C13_eval_circle_p4C1 k.pi k.s2 hpi h2 hs0 s t ht
+  obtain ⟨hw, hcirc, _⟩ := hev s τ 4 14 t
+  simp only [hcps] at hw hcirc
+  obtain ⟨sx, sy, sw, _⟩ := splineVal_scaled s τ 4 14 (circleNetP4 k.s2) t r r [r] hlen h3
+  rw [sx, sy, sw] at hcirc
+  rw [sw] at hw
+  have hwpos : 0 < wh := by
+    have : wh = _ := hw
+    rw [this]; exact hW
+  obtain ⟨q1, q2⟩ := hcirc r (by linear_combination r ^ 2 * hcone) (ne_of_gt hW)
+  exact ⟨hwpos, q1, q2⟩
+
+
+/-- **`ellipse(r1, r2, center, normal, type, xaxis)` at every parameter** (partial, same guards as
+`C13_factory_circle_p2C0_partial`): the evaluated point satisfies the ellipse equation in the frame
+`(e_x', e_y')` = images of `e_x, e_y` under the placement rotation (orthonormal, ⟂ n, `e_x' = xaxis/‖xaxis‖`)
+and lies in the plane through the centre. -/
+theorem C13_factory_ellipse_p2C0_partial (k : Consts K) (r1 r2 c1 c2 c3 nx ny nz x y z ρ N lam ct st cp sp : K)
+    (hpi : 0 < k.pi) (hw2 : k.w ^ 2 = 1 / 2) (hw0 : 0 < k.w) (hr1 : r1 ≠ 0) (hr2 : r2 ≠ 0)
+    (hn : allcloseEz [nx, ny, nz] = false) (hc : allcloseZero [c1, c2, c3] = false)
+    (hρ : ρ ^ 2 = nx ^ 2 + ny ^ 2) (hNN : N ^ 2 = ρ ^ 2 + nz ^ 2) (hNpos : 0 < N)
+    (hθ : ρ ≠ 0 → ct * ρ = nx ∧ st * ρ = ny) (hθ1 : ct ^ 2 + st ^ 2 = 1)
+    (hcp : cp * N = nz) (hsp : sp * N = ρ)
+    (horth : x * nx + y * ny + z * nz = 0) (hlam : 0 < lam)
+    (hl2 : lam ^ 2 = ((localXVec [x, y, z] ⟨ct, st, cp, sp⟩).getD 0 0) ^ 2
+                + ((localXVec [x, y, z] ⟨ct, st, cp, sp⟩).getD 1 0) ^ 2) :
+    ∃ o : Fac.Obj K,
+      ellipse k r1 r2 [c1, c2, c3] [nx, ny, nz] "p2C0" [x, y, z] ⟨ct, st, cp, sp⟩ lam = .ok o ∧
+      o.bases = [{ order := 3, knots := (circleKnotsP2 k.pi).toArray, periodic := 0 }] ∧ o.rational = true ∧ o.dim = 3 ∧ o.cps.length = 8 ∧
+      ∀ (s : Side) (t : K), s.mem 0 (2 * k.pi) t →
+        let τ := ({ order := 3, knots := (circleKnotsP2 k.pi).toArray, periodic := 0 } : Basis K).kn
+        let xh := splineVal s τ 2 9 (netComp o.cps 0) t
+        let yh := splineVal s τ 2 9 (netComp o.cps 1) t
+        let zh := splineVal s τ 2 9 (netComp o.cps 2) t
+        let wh := splineVal s τ 2 9 (netComp o.cps 3) t
+        let ca := (rotateLocalXAxis [x, y, z] ⟨ct, st, cp, sp⟩ lam).1
+        let sa := (rotateLocalXAxis [x, y, z] ⟨ct, st, cp, sp⟩ lam).2
+        -- images of `e_x`, `e_y` under the placement rotation (`e_x ↦ xaxis/‖xaxis‖`, `C13_placed_points`)
+        let ex : K × K × K := (ca * cp * ct - sa * st, ca * cp * st + sa * ct, -(ca * sp))
+        let ey : K × K × K := (-(sa * cp * ct) - ca * st, -(sa * cp * st) + ca * ct, sa * sp)
+        0 < wh ∧
+        (((xh / wh - c1) * ex.1 + (yh / wh - c2) * ex.2.1 + (zh / wh - c3) * ex.2.2) / r1) ^ 2
+          + (((xh / wh - c1) * ey.1 + (yh / wh - c2) * ey.2.1 + (zh / wh - c3) * ey.2.2) / r2) ^ 2 = 1 ∧
+        (xh / wh - c1) * nx + (yh / wh - c2) * ny + (zh / wh - c3) * nz = 0 := by
+  have hmodel : ellipse k r1 r2 [c1, c2, c3] [nx, ny, nz] "p2C0" [x, y, z] ⟨ct, st, cp, sp⟩ lam
+      = place ((curveOf { order := 3, knots := (circleKnotsP2 k.pi).toArray, periodic := 0 } (circleNetP2 k.w) true 2).scale [r1, r2, 1]) [c1, c2, c3] [nx, ny, nz] [x, y, z] ⟨ct, st, cp, sp⟩ lam := by
+    simp [ellipse, circleDefault_p2C0_eq k, bind, Except.bind]
+  have h3 := is3_circleNetP2 k.w
+  have hlen : 0 < (circleNetP2 k.w).length := by simp [circleNetP2]
+  have hcps : ((curveOf { order := 3, knots := (circleKnotsP2 k.pi).toArray, periodic := 0 } (circleNetP2 k.w) true 2).scale [r1, r2, 1]).cps = (circleNetP2 k.w).map (scalePt 2 (r1 :: r2 :: [1])) := by
+    simp [Fac.Obj.scale, Fac.Obj.mapPts, curveOf, Fac.Obj.padScale]
+  obtain ⟨o, ho, hb, hrat, hdim, hl, hev⟩ := C13_place_eval k ((curveOf { order := 3, knots := (circleKnotsP2 k.pi).toArray, periodic := 0 } (circleNetP2 k.w) true 2).scale [r1, r2, 1]) rfl rfl
+    (by rw [hcps]; simpa using hlen)
+    (by rw [hcps]; simpa using (splineVal_scaled .right (fun _ => (0 : K)) 0 0 (circleNetP2 k.w) 0 r1 r2 [1] hlen h3).2.2.2)
+    c1 c2 c3 nx ny nz x y z ρ N lam ct st cp sp hn hc hρ hNN hNpos hθ hθ1 hcp hsp horth hlam hl2
+  refine ⟨o, by rw [hmodel, ho], hb, hrat, hdim, by rw [hl, hcps]; simp [circleNetP2], ?_⟩
+  intro s t ht τ xh yh zh wh ca sa ex ey
+  obtain ⟨hW, hcone, _⟩ := C13_eval_circle_p2C0 k.pi k.w hpi hw2 hw0 s t ht
+  obtain ⟨hw, _, hell⟩ := hev s τ 2 9 t
+  simp only [hcps] at hw hell
+  obtain ⟨sx, sy, sw, _⟩ := splineVal_scaled s τ 2 9 (circleNetP2 k.w) t r1 r2 [1] hlen h3
+  rw [sx, sy, sw] at hell
+  rw [sw] at hw
+  have hwpos : 0 < wh := by
+    have : wh = _ := hw
+    rw [this]; exact hW
+  obtain ⟨q1, q2⟩ := hell r1 r2 (by field_simp; linear_combination hcone) (ne_of_gt hW) hr1 hr2
+  exact ⟨hwpos, q1, q2⟩
+
+/-- `ellipse(type='p4C1')`. -/
+theorem C13_factory_ellipse_p4C1_partial (k : Consts K) (r1 r2 c1 c2 c3 nx ny nz x y z ρ N lam ct st cp sp : K)
+    (hpi : 0 < k.pi) (h2 : k.s2 ^ 2 = 2) (hs0 : 0 < k.s2) (hr1 : r1 ≠ 0) (hr2 : r2 ≠ 0)
+    (hn : allcloseEz [nx, ny, nz] = false) (hc : allcloseZero [c1, c2, c3] = false)
+    (hρ : ρ ^ 2 = nx ^ 2 + ny ^ 2) (hNN : N ^ 2 = ρ ^ 2 + nz ^ 2) (hNpos : 0 < N)
+    (hθ : ρ ≠ 0 → ct * ρ = nx ∧ st * ρ = ny) (hθ1 : ct ^ 2 + st ^ 2 = 1)
+    (hcp : cp * N = nz) (hsp : sp * N = ρ)
+    (horth : x * nx + y * ny + z * nz = 0) (hlam : 0 < lam)
+    (hl2 : lam ^ 2 = ((localXVec [x, y, z] ⟨ct, st, cp, sp⟩).getD 0 0) ^ 2
+                + ((localXVec [x, y, z] ⟨ct, st, cp, sp⟩).getD 1 0) ^ 2) :
+    ∃ o : Fac.Obj K,
+      ellipse k r1 r2 [c1, c2, c3] [nx, ny, nz] "p4C1" [x, y, z] ⟨ct, st, cp, sp⟩ lam = .ok o ∧
+      o.bases = [{ order := 5, knots := (circleKnotsP4 k.pi).toArray, periodic := 1 }] ∧ o.rational = true ∧ o.dim = 3 ∧ o.cps.length = 12 ∧
+      ∀ (s : Side) (t : K), s.mem 0 (2 * k.pi) t →
+        let τ := ({ order := 5, knots := (circleKnotsP4 k.pi).toArray, periodic := 1 } : Basis K).kn
+        let xh := splineVal s τ 4 14 (netComp o.cps 0) t
+        let yh := splineVal s τ 4 14 (netComp o.cps 1) t
+        let zh := splineVal s τ 4 14 (netComp o.cps 2) t
+        let wh := splineVal s τ 4 14 (netComp o.cps 3) t
+        let ca := (rotateLocalXAxis [x, y, z] ⟨ct, st, cp, sp⟩ lam).1
+        let sa := (rotateLocalXAxis [x, y, z] ⟨ct, st, cp, sp⟩ lam).2
+        -- images of `e_x`, `e_y` under the placement rotation (`e_x ↦ xaxis/‖xaxis‖`, `C13_placed_points`)
+        let ex : K × K × K := (ca * cp * ct - sa * st, ca * cp * st + sa * ct, -(ca * sp))
+        let ey : K × K × K := (-(sa * cp * ct) - ca * st, -(sa * cp * st) + ca * ct, sa * sp)
+        0 < wh ∧
+        (((xh / wh - c1) * ex.1 + (yh / wh - c2) * ex.2.1 + (zh / wh - c3) * ex.2.2) / r1) ^ 2
+          + (((xh / wh - c1) * ey.1 + (yh / wh - c2) * ey.2.1 + (zh / wh - c3) * ey.2.2) / r2) ^ 2 = 1 ∧
+        (xh / wh - c1) * nx + (yh / wh - c2) * ny + (zh / wh - c3) * nz = 0 := by
+  have hmodel : ellipse k r1 r2 [c1, c2, c3] [nx, ny, nz] "p4C1" [x, y, z] ⟨ct, st, cp, sp⟩ lam
+      = place ((curveOf { order := 5, knots := (circleKnotsP4 k.pi).toArray, periodic := 1 } (circleNetP4 k.s2) true 2).scale [r1, r2, 1]) [c1, c2, c3] [nx, ny, nz] [x, y, z] ⟨ct, st, cp, sp⟩ lam := by
+    simp [ellipse, circleDefault_p4C1_eq k, bind, Except.bind]
+  have h3 := is3_circleNetP4 k.s2
+  have hlen : 0 < (circleNetP4 k.s2).length := by simp [circleNetP4]
+  have hcps : ((curveOf { order := 5, knots := (circleKnotsP4 k.pi).toArray, periodic := 1 } (circleNetP4 k.s2) true 2).scale [r1, r2, 1]).cps = (circleNetP4 k.s2).map (scalePt 2 (r1 :: r2 :: [1])) := by
+    simp [Fac.Obj.scale, Fac.Obj.mapPts, curveOf, Fac.Obj.padScale]
+  obtain ⟨o, ho, hb, hrat, hdim, hl, hev⟩ := C13_place_eval k ((curveOf { order := 5, knots := (circleKnotsP4 k.pi).toArray, periodic := 1 } (circleNetP4 k.s2) true 2).scale [r1, r2, 1]) rfl rfl
+    (by rw [hcps]; simpa using hlen)
+    (by rw [hcps]; simpa using (splineVal_scaled .right (fun _ => (0 : K)) 0 0 (circleNetP4 k.s2) 0 r1 r2 [1] hlen h3).2.2.2)
+    c1 c2 c3 nx ny nz x y z ρ N lam ct st cp sp hn hc hρ hNN hNpos hθ hθ1 hcp hsp horth hlam hl2
+  refine ⟨o, by rw [hmodel, ho], hb, hrat, hdim, by rw [hl, hcps]; simp [circleNetP4], ?_⟩
+  intro s t ht τ xh yh zh wh ca sa ex ey
+  obtain ⟨hW, hcone, _⟩ := C13_eval_circle_p4C1 k.pi k.s2 hpi h2 hs0 s t ht
+  obtain ⟨hw, _, hell⟩ := hev s τ 4 14 t
+  simp only [hcps] at hw hell
+  obtain ⟨sx, sy, sw, _⟩ := splineVal_scaled s τ 4 14 (circleNetP4 k.s2) t r1 r2 [1] hlen h3
+  rw [sx, sy, sw] at hell
+  rw [sw] at hw
+  have hwpos : 0 < wh := by
+    have : wh = _ := hw
+    rw [this]; exact hW
+  obtain ⟨q1, q2⟩ := hell r1 r2 (by field_simp; linear_combination hcone) (ne_of_gt hW) hr1 hr2
+  exact ⟨hwpos, q1, q2⟩
+
+
+/-- **`circle_segment(θ, r, center, normal, xaxis)` at every parameter** (partial): for `0 < θ < 2π`
+(`θ = 2π` is `circle`, `circleSegment_two_pi`) the model function returns `place (arcCurve …)` — the
+object whose unplaced form `C13_eval_arc_evaluate` evaluates through `Obj.evaluate` — and every
+evaluated point of the result is on the circle of radius `r` about the centre in the plane ⟂ n.
+*Missing:* `θ < 0` (the code reverses net and knot vector: same point set, not restated at the
+B-spline level), and the skipped-placement branches as for `circle`. -/
+theorem C13_factory_circle_segment_partial (k : Consts K) (r theta c1 c2 c3 nx ny nz x y z ρ N lam ct st cp sp : K)
+    (hpi : 0 < k.pi) (arc : ArcAux K) (hn0 : 0 < arc.spans) (hθ0 : 0 < theta) (hθ2 : theta ≤ 2 * k.pi) (hθne : theta ≠ 2 * k.pi)
+    (hd : arc.cd ^ 2 + arc.sd ^ 2 = 1) (hcd : 0 < arc.cd) (hr : 0 < r)
+    (hn : allcloseEz [nx, ny, nz] = false) (hc : allcloseZero [c1, c2, c3] = false)
+    (hρ : ρ ^ 2 = nx ^ 2 + ny ^ 2) (hNN : N ^ 2 = ρ ^ 2 + nz ^ 2) (hNpos : 0 < N)
+    (hθ : ρ ≠ 0 → ct * ρ = nx ∧ st * ρ = ny) (hθ1 : ct ^ 2 + st ^ 2 = 1)
+    (hcp : cp * N = nz) (hsp : sp * N = ρ)
+    (horth : x * nx + y * ny + z * nz = 0) (hlam : 0 < lam)
+    (hl2 : lam ^ 2 = ((localXVec [x, y, z] ⟨ct, st, cp, sp⟩).getD 0 0) ^ 2
+                + ((localXVec [x, y, z] ⟨ct, st, cp, sp⟩).getD 1 0) ^ 2) :
+    ∃ o : Fac.Obj K,
+      circleSegment k theta r [c1, c2, c3] [nx, ny, nz] [x, y, z] arc ⟨ct, st, cp, sp⟩ lam = .ok o ∧
+      place (arcCurve r arc.cd arc.sd theta arc.spans) [c1, c2, c3] [nx, ny, nz] [x, y, z] ⟨ct, st, cp, sp⟩ lam = .ok o ∧
+      o.bases = [{ order := 3, knots := (arcKnots theta arc.spans).toArray, periodic := -1 }] ∧
+      o.rational = true ∧ o.dim = 3 ∧ o.cps.length = 2 * arc.spans + 1 ∧
+      ∀ (s : Side) (t : K), s.mem 0 theta t →
+        let τ := ({ order := 3, knots := (arcKnots theta arc.spans).toArray, periodic := -1 } : Basis K).kn
+        let xh := splineVal s τ 2 (2 * arc.spans + 1) (netComp o.cps 0) t
+        let yh := splineVal s τ 2 (2 * arc.spans + 1) (netComp o.cps 1) t
+        let zh := splineVal s τ 2 (2 * arc.spans + 1) (netComp o.cps 2) t
+        let wh := splineVal s τ 2 (2 * arc.spans + 1) (netComp o.cps 3) t
+        0 < wh ∧
+        (xh / wh - c1) ^ 2 + (yh / wh - c2) ^ 2 + (zh / wh - c3) ^ 2 = r ^ 2 ∧
+        (xh / wh - c1) * nx + (yh / wh - c2) * ny + (zh / wh - c3) * nz = 0 := by
+  obtain ⟨harc, _, _⟩ := C13_model_nets k [c1, c2, c3] [nx, ny, nz] [x, y, z] ⟨ct, st, cp, sp⟩ lam
+  have hmodel : circleSegment k theta r [c1, c2, c3] [nx, ny, nz] [x, y, z] arc ⟨ct, st, cp, sp⟩ lam
+      = place (arcCurve r arc.cd arc.sd theta arc.spans) [c1, c2, c3] [nx, ny, nz] [x, y, z] ⟨ct, st, cp, sp⟩ lam := by
+    rw [harc theta r arc (by rw [abs_of_pos hθ0]; exact hθ2) hθne hr (by omega), if_neg (not_lt.mpr (le_of_lt hθ0))]
+    rfl
+  have h3 := is3_arcNet r arc.cd arc.sd arc.spans
+  have hlen : 0 < (arcNet r arc.cd arc.sd arc.spans).length := by rw [arcNet_length]; omega
+  obtain ⟨o, ho, hb, hrat, hdim, hl, hev⟩ := C13_place_eval k (arcCurve r arc.cd arc.sd theta arc.spans) rfl rfl
+    hlen h3 c1 c2 c3 nx ny nz x y z ρ N lam ct st cp sp hn hc hρ hNN hNpos hθ hθ1 hcp hsp horth hlam hl2
+  refine ⟨o, by rw [hmodel, ho], ho, hb, hrat, hdim, by rw [hl]; exact arcNet_length _ _ _ _, ?_⟩
+  intro s t ht τ xh yh zh wh
+  obtain ⟨hW, hcone, _⟩ := C13_eval_arc r arc.cd arc.sd theta arc.spans hn0 hθ0 hd hcd s t ht
+  obtain ⟨hw, hcirc, _⟩ := hev s τ 2 (2 * arc.spans + 1) t
+  have hwpos : 0 < wh := by
+    have : wh = _ := hw
+    rw [this]; exact hW
+  obtain ⟨q1, q2⟩ := hcirc r hcone (ne_of_gt hW)
+  exact ⟨hwpos, q1, q2⟩
 
